@@ -25,7 +25,7 @@ VARIANTS = [
     v("c20-write-labels", "    ii = 1\n    jj = 1\n    kk = 0\n", "    ii = 1\n    jj = 1\n    kk = 0\n    labels[0] = labels[1]\n", names="R-READONLY"),
     # twins
     v("c20-twin-lambda", "ws2d(temp, 0.00001, w)", "ws2d(temp, 1e-5, w)", expect="silent"),
-    v("c20-twin-w", "    w = template.copy()\n", "    w = np.copy(template)\n", expect="silent", allow_error=True),
+    # (c20-twin-w `w = np.copy(template)` removed: the module does not import numpy, the variant does not type under Numba - not a twin)
 ]
 
 VARIANTS += [
